@@ -7,8 +7,8 @@ post-processing and the real surface.py functions map every vertex to
 spacing and origin shift compose to the identity), reverse the winding exactly for 'descent',
 and the sampling box contains every atom +- (vdW + 3.8).
 Layer 3: the user-level wrappers and the colour mapping return instead of raising.
-Layer 2 (topology of the Lewiner kernel itself) is not encoded: the kernel enters as the stub's
-contract, exercised concretely against the compiled module; closedness is not a solver verdict."""
+Layer 2 (topology of the Lewiner kernel and its tables) is decided in c06_kernel on a translation of the
+kernel source that is validated against the compiled module on every run."""
 import itertools
 import time
 
@@ -108,6 +108,11 @@ def replay_wrappers(data):
 
 
 REPLAY = {"surf": replay_surface, "wrap": replay_wrappers}
+try:
+    from . import c06_kernel as _ck
+    REPLAY["kernel"] = _ck.replay_kernel
+except ImportError:
+    pass
 
 
 # ------------------------------------------------------------------------------------- run
